@@ -730,3 +730,26 @@ silent("c03-burn-lookup-by-index", ["C03", "C04"],
      (DISTR, "	for pos, state := range *states {\n		if state.Burn {\n			return pos\n		}\n	}\n	return -1", "	for pos := range *states {\n		if (*states)[pos].Burn {\n			return pos\n		}\n	}\n	return -1"))
 fire("c04-payout-dispatch-on-account-nil", ["C04", "C12"], ["C04.sameshape", "C12.sameshape"],
      (DISTR, "		if types.InternalAccount != state.Account.GetType() && checkIfAnyCoinIsGTE1(state.Remains) {", "		if account := state.Account; account != nil && types.InternalAccount != account.Type && checkIfAnyCoinIsGTE1(state.Remains) {"))
+
+silent("c06-query-inlines-oracle-statelessly", "C06",
+     (QPOOLS, "		withdrawable := CalculateWithdrawable(ctx.BlockTime(), *vesting)\n		current := vesting.GetCurrentlyLocked()", "		current := vesting.GetCurrentlyLocked()\n		withdrawable := sdk.ZeroInt()\n		if !ctx.BlockTime().Before(vesting.LockEnd) {\n			withdrawable = current\n		}"))
+fire("c06-query-inlined-oracle-keeps-state", "C06", ["C06.sameoracle"],
+     (QPOOLS, "	result := types.QueryVestingPoolsResponse{}\n", "	result := types.QueryVestingPoolsResponse{}\n	withdrawable := sdk.ZeroInt()\n"),
+     (QPOOLS, "		withdrawable := CalculateWithdrawable(ctx.BlockTime(), *vesting)\n		current := vesting.GetCurrentlyLocked()", "		current := vesting.GetCurrentlyLocked()\n		if !ctx.BlockTime().Before(vesting.LockEnd) {\n			withdrawable = current\n		}"))
+fire("c06-query-inlined-oracle-strict-after", "C06", ["C06.sameoracle"],
+     (QPOOLS, "		withdrawable := CalculateWithdrawable(ctx.BlockTime(), *vesting)\n		current := vesting.GetCurrentlyLocked()", "		current := vesting.GetCurrentlyLocked()\n		withdrawable := sdk.ZeroInt()\n		if ctx.BlockTime().After(vesting.LockEnd) {\n			withdrawable = current\n		}"))
+
+silent("c08-direct-sorted-before-both-uses", "C08",
+     (VEST, "	acc, err := k.newContinuousVestingAccount(ctx, to, amount.Sort(), startTime, endTime)", "	amount = amount.Sort()\n	acc, err := k.newContinuousVestingAccount(ctx, to, amount, startTime, endTime)"))
+fire("c08-direct-vests-only-module-denom", "C08", ["C08.same"],
+     (VEST, "	acc, err := k.newContinuousVestingAccount(ctx, to, amount.Sort(), startTime, endTime)", "	denom := k.Denom(ctx)\n	acc, err := k.newContinuousVestingAccount(ctx, to, sdk.NewCoins(sdk.NewCoin(denom, amount.AmountOf(denom))), startTime, endTime)"))
+
+MVD = "x/cfevesting/keeper/msg_server_move_available_vesting_by_denoms.go"
+MVD_OLD = "	amount := sdk.NewCoins()\n	for _, denom := range msg.Denoms {\n		if len(denom) == 0 {\n			return nil, sdkerrors.Wrapf(types.ErrParam, \"move available vesting by denoms - empty denom\")\n		}\n		denAmount := locked.AmountOf(denom)\n		if denAmount.IsPositive() {\n			amount = amount.Add(sdk.NewCoin(denom, denAmount))\n		}\n	}\n"
+fire("c07-move-binary-search-unsorted-denoms", "C07", ["C07.move"],
+     (MVD, MVD_OLD, "	amount := sdk.NewCoins()\n	for _, coin := range locked {\n		if i := sort.SearchStrings(msg.Denoms, coin.Denom); i < len(msg.Denoms) && msg.Denoms[i] == coin.Denom {\n			amount = amount.Add(coin)\n		}\n	}\n"),
+     (MVD, "import (\n", "import (\n	\"sort\"\n"))
+silent("c07-move-filter-locked-by-linear-scan", "C07",
+     (MVD, MVD_OLD, "	amount := sdk.NewCoins()\n	for _, coin := range locked {\n		for _, denom := range msg.Denoms {\n			if denom == coin.Denom && coin.Amount.IsPositive() {\n				amount = amount.Add(coin)\n			}\n		}\n	}\n"))
+fire("c07-move-ignores-denoms", "C07", ["C07.move"],
+     (MVD, MVD_OLD, "	amount := locked\n"))
